@@ -245,7 +245,7 @@ pub fn run(case: &Line) -> Outcome {
             if r.to_string() == s { Ok(()) } else { Err(format!("{s:?} parses to {} which prints as {:?}", r.0, r.to_string())) }
           }
           (Err(_), Some(Err(()))) | (Err(_), None) if !s.is_empty() => Ok(()),
-          _ if s.is_empty() => Ok(()), // the empty string is not a name; judged under C31
+          _ if s.is_empty() && r.is_err() => Ok(()), // the empty string is not a name and must be rejected
           (got, exp) => Err(format!("{s:?} parses to {got:?}, denotes {exp:?}")),
         };
         let cat = if s.is_empty() { "trivial/parse-empty".to_string() } else { cat };
